@@ -131,6 +131,20 @@ let run line =
         String.concat "," (List.map (fun (k, c) ->
             Printf.sprintf "%c=%s" (Char.chr (int_of_z (List.hd k))) (hex_of_bytes c)) !fs) in
     String.concat " | " (outs @ [Printf.sprintf "end 0 %s" dump])
+  | ["DR"; mode; hex; off; d; sc] ->
+    (* a descriptor the caller opened and left at [off]; write-only: the first read() fails (EBADF) *)
+    let file = bytes_of_hex hex and pos = z_of_string off in
+    let sched = rpad (parse_sched sc) file in
+    let sched = if mode = "w" then Err (z_of_int 9) :: sched else sched in
+    let (r, endpos) = object_from_fd_at stand_in app_ok sched file pos (if d = "fd" then z_of_int (-1) else z_of_string d) in
+    let (f, live) = rfields r in
+    Printf.sprintf "DR %s %s = %s" f (string_of_z endpos) live
+  | ["DW"; mode; hexold; off; tree; _fl; sc; serhex] ->
+    let old = bytes_of_hex hexold and pos = z_of_string off and ser = bytes_of_hex serhex in
+    let sched = wpad (parse_sched sc) ser in
+    let sched = if mode = "r" then Err (z_of_int 9) :: sched else sched in
+    let ((r, file), endpos) = object_to_fd_at sched old pos (mode = "a") (tree = "n") (Some ser) in
+    Printf.sprintf "DW %s %s %s 0" (wfields r ser) (string_of_z endpos) (hex_of_bytes file)
   | ["N"; kind; what; en; _name] ->
     (* the model decides result, that a message is set, the calls; what the message SAYS
        (terminated, names the file, carries the errno text) is observed on the C side only *)
